@@ -1,6 +1,6 @@
 From Coq Require Import List Arith ZArith Bool.
 Import ListNotations.
-From PF Require Import Arr Net Elev Upscale UpscaleD8 D8Idx Glue RunC15.
+From PF Require Import Arr Net Elev Upscale UpscaleD8 D8Idx Ihu Glue RunC15.
 Local Open Scope Z_scope.
 
 Definition sent_out (n : nat) (l : list nat) : list Z :=
@@ -38,6 +38,13 @@ Definition run_c09 (k : Z) (args : list (list Z)) : list (list Z) :=
        links join 8-neighbouring pixels: the hypotheses of eam_links_d8 *)
     [[zb (check_cross sds (bs (arg 5 args)) (argn 3 args) (argn 4 args));
       zb (forallb (fun t => (length sds <=? sd sds t)%nat || in_d8 t (sd sds t) (argn 3 args)) (seq 0 (length sds)))]]
+  else if k =? 916 then
+    (* the full iterative method ihu (default options) against the implementation run with a stable argsort: coarse ds (arg 6),
+       outlet pixels (arg 7), shape (arg 8) *)
+    match pack sds (up_ihu sds (arg 1 args) (argn 2 args) (argn 3 args) (argn 4 args) (bs (arg 5 args))) with
+    | [a; b; c] => [[zb (RunC15.zlist_eqb a (arg 6 args)); zb (RunC15.zlist_eqb b (arg 7 args)); zb (RunC15.zlist_eqb c (arg 8 args))]]
+    | _ => [[0]]
+    end
   else if k =? 915 then
     (* core._d8_idx / core._upstream_d8_idx on every cell of a (coarse) raster: args ds, [nrow], [ncol], then the
        implementation's lists flattened as  idx0, length, neighbours ...  for idx0 = 0 .. min(size, 40) - 1 *)
